@@ -301,7 +301,7 @@ struct Std {
 };
 
 // ---------------------------------------------------------------- argument tuple of one operation
-enum ArgMask : unsigned { aV = 1, aY = 2, aQ4 = 4, aQ2 = 8, aF = 16, aJ = 32, aZ = 64 };
+enum ArgMask : unsigned { aV = 1, aY = 2, aQ4 = 4, aQ2 = 8, aF = 16, aJ = 32, aZ = 64, aM = 128 /* may change the state of the object under test */ };
 struct Args {
     int v  = 0; // value code 0..nv-1
     int y  = 0; // state of the other operand (subject specific encoding)
@@ -314,38 +314,77 @@ struct OpInfo {
     char const* name;
     unsigned args;
 };
+// mutator bookkeeping shared by the subjects: Table must have ops[] and n, Info maps an op to its OpInfo
+template <typename Table, typename InfoFn>
+struct Mutators {
+    unsigned idx[64]{};
+    unsigned n = 0;
+    constexpr Mutators(Table const& t, InfoFn info)
+    {
+        for (unsigned w = 0; w < t.n; ++w) {
+            if (info(t.ops[w]).args & aM) { idx[n++] = w; }
+        }
+    }
+};
 
 // ---------------------------------------------------------------- enumeration driver
 // A Subject provides:
 //   static constexpr unsigned kOps;                 number of operations applicable to this subject
+//   static bool is_mutator(unsigned w);             may operation w change the state of the object under test?
+//   static unsigned n_mutators(); static unsigned mutator_at(unsigned k);
 //   char const* name() const;
 //   void init(vf::Chooser&, unsigned nv);            choose start state + construction form, build both worlds
 //   void step(unsigned w, vf::Chooser&, unsigned nv) apply operation w with arguments from the chooser, compare
 //   static char const* not_provided();               list of std members the etl type lacks (for the evidence)
+//
+// Histories: every start state x construction form, then
+//   (a) every pair (w0, any operation) with every argument tuple                                   [depth 2]
+//   (b) for depth > 2 and w0 a mutator: (w0, mutator, ..., mutator, any operation), every argument tuple.
+// A history whose first or middle operation cannot change the state is equivalent to a shorter one (the observer
+// battery after every step checks that such operations indeed leave the state alone), so (a)+(b) lose nothing
+// relative to the full depth-d product.
 template <typename Subject>
-inline void enumerate_first_op(unsigned w0, unsigned depth, unsigned nv)
+inline unsigned long long enumerate_chain(unsigned w0, unsigned depth, unsigned nv, bool middle_mutators_only)
 {
     vf::Chooser ch;
     unsigned long long n = 0;
-    char const* nm       = "";
     do {
         ch.begin();
         vf::registry().reset();
         {
             Subject s;
-            nm = s.name();
             s.init(ch, nv);
             s.step(w0, ch, nv);
-            for (unsigned d = 1; d < depth; ++d) { s.step(ch.pick(Subject::kOps), ch, nv); }
+            for (unsigned d = 1; d < depth; ++d) {
+                bool const last = d + 1 == depth;
+                unsigned w      = (!last && middle_mutators_only) ? Subject::mutator_at(ch.pick(Subject::n_mutators())) : ch.pick(Subject::kOps);
+                s.step(w, ch, nv);
+            }
         }
         ++n;
     } while (ch.next());
     vf::registry().reset();
-    char lab[80];
+    return n;
+}
+template <typename Subject>
+inline void enumerate_first_op(unsigned w0, unsigned depth, unsigned nv)
+{
+    unsigned long long n2 = enumerate_chain<Subject>(w0, depth < 2 ? depth : 2, nv, false);
+    unsigned long long nd = 0;
+    if (depth > 2 && Subject::is_mutator(w0)) { nd = enumerate_chain<Subject>(w0, depth, nv, true); }
+    char nm[64];
+    {
+        vf::Chooser ch;
+        ch.begin();
+        Subject s;
+        std::snprintf(nm, sizeof nm, "%s", s.name());
+    }
+    vf::registry().reset();
+    char lab[96];
     std::snprintf(lab, sizeof lab, "%s enumerated", nm);
     if (vf::want_sample(lab)) {
-        vf::sample(lab, "first op %u: %llu complete histories (every start state x every argument tuple, depth %u, %u values); not provided by tetl: %s",
-            w0, n, depth, nv, Subject::not_provided());
+        vf::sample(lab, "first op %u: %llu complete histories of depth 2 + %llu of depth %u through state-changing operations (every start state x every argument tuple, %u values); not provided by tetl: %s",
+            w0, n2, nd, depth, nv, Subject::not_provided());
     }
 }
 template <typename Subject>
